@@ -213,6 +213,13 @@ func vrtUntouched(v any) bool       { return true }
 
 func vrtKnown(id string, inRegion bool) bool { return inRegion }
 
+// vrtDescribe renders a native outcome for replay reports (never executed symbolically).
+func vrtDescribe(expr string, got any, err error, want any) string {
+	g, _ := json.Marshal(got)
+	w, _ := json.Marshal(want)
+	return fmt.Sprintf("native: %s => got %s err=%v want %s", expr, g, err, w)
+}
+
 func vrtNote(msg string) { vrtS.notes = append(vrtS.notes, msg) }
 
 type vrtTree struct {
